@@ -758,11 +758,12 @@ def extract(repo):
             if f is None and prop == FIXTURE_PROP:
                 raise ExtractError("x_fn: translator fixture %s is NOT TRANSLATED: %s" % (qn, u.failed.get((impl, name))))
             if f is None:
-                ent["facts"]["fn_gen"][qn] = {"file": tg["rel"], "translated": False, "why": u.failed.get((impl, name))}
+                ent["facts"]["fn_gen"][qn] = {"file": tg["rel"], "area": tg["area"], "translated": False, "why": u.failed.get((impl, name)),
+                                             "tied_by": thm}
                 ent["obligations"].append("Gen.Fn%s: %s is NOT TRANSLATED (outside the subset): %s breaks" % (tg["area"], qn, thm))
                 continue
             ent["facts"]["fn_gen"][qn] = {
-                "file": tg["rel"], "line": f.line, "lean": "VlsModel.Gen.Fn%s.%s" % (tg["area"], f.lean_name),
+                "file": tg["rel"], "area": tg["area"], "line": f.line, "lean": "VlsModel.Gen.Fn%s.%s" % (tg["area"], f.lean_name),
                 "monadic": f.monadic, "externals": ["%s : %s" % x for x in f.exts], "dropped": f.dropped,
                 "calls": sorted(set(f.callees)), "sha1": hashlib.sha1(f.text.encode()).hexdigest()[:12],
                 "tied_by": thm}
